@@ -501,6 +501,8 @@ struct Env {
     faults: Vec<usize>,
     cmd_rx: UnboundedReceiver<ServerCommand>,
     svc_seen: usize,
+    /// accepted connections the accept thread dropped without dispatching them: (cid, no handle was left)
+    dropped: Vec<(usize, bool)>,
 }
 
 pub struct Sim {
@@ -555,6 +557,7 @@ pub struct Snap {
     /// service-side events since the previous snapshot: (kind, worker, token, value) with value = answer for
     /// "ready", connection id for "call", 1/0 for "create"
     pub svc_new: Vec<(String, usize, usize, i64)>,
+    pub dropped: Vec<(usize, bool)>,
     pub scripts_empty: bool,
 }
 
@@ -973,6 +976,7 @@ impl Sim {
             faults: vec![],
             cmd_rx,
             svc_seen: 0,
+            dropped: vec![],
         };
         let mut handles = vec![];
         for idx in 0..cfg.workers {
@@ -1065,7 +1069,10 @@ impl Sim {
             Ok(e) => e,
             Err(_) => return 0, // a panic unwound through the callback while env was borrowed
         };
-        e.in_hand = None;
+        if let Some(cid) = e.in_hand.take() {
+            let no_handle = self.st.snapshot(e.cfg.workers).handles.is_empty();
+            e.dropped.push((cid, no_handle));
+        }
         let missed: Vec<Act> = e
             .anchored
             .iter()
@@ -1201,6 +1208,7 @@ impl Sim {
                 && sh.create_script.values().all(|q| q.is_empty());
         }
         e.svc_seen += s.svc_new.len();
+        s.dropped = e.dropped.clone();
         s.replaced = e.replaced.clone();
         s.skipped = e.skipped.clone();
         s
